@@ -1,6 +1,7 @@
 package main
 
 import (
+	_ "embed"
 	"encoding/json"
 	"fmt"
 	"go/token"
@@ -35,19 +36,25 @@ var pkgAlias = map[string]string{
 }
 
 // Engine holds the loaded, type-checked program in SSA form.
+// canonNames maps functions that were found by role (their declared name is
+// not the one the rule tables use, e.g. after a rename) to the canonical name.
+var canonNames = map[*ssa.Function]string{}
+
 type Engine struct {
-	RepoDir  string
-	GoArch   string
-	Fset     *token.FileSet
-	Pkgs     []*packages.Package // module packages only
-	Prog     *ssa.Program
-	SSAPkg   map[string]*ssa.Package // by import path
-	ModFuncs []*ssa.Function         // every function with a body whose package is in the module
-	cgVTA    *callgraph.Graph
-	cgCHA    *callgraph.Graph
-	UseCHA   bool // thorough tier: resolve dynamic calls with CHA instead of VTA
-	allFuncs map[*ssa.Function]bool
-	siteMemo map[ssa.CallInstruction][]*ssa.Function
+	anchorLog map[string]bool
+	override  map[string]*ssa.Function
+	RepoDir   string
+	GoArch    string
+	Fset      *token.FileSet
+	Pkgs      []*packages.Package // module packages only
+	Prog      *ssa.Program
+	SSAPkg    map[string]*ssa.Package // by import path
+	ModFuncs  []*ssa.Function         // every function with a body whose package is in the module
+	cgVTA     *callgraph.Graph
+	cgCHA     *callgraph.Graph
+	UseCHA    bool // thorough tier: resolve dynamic calls with CHA instead of VTA
+	allFuncs  map[*ssa.Function]bool
+	siteMemo  map[ssa.CallInstruction][]*ssa.Function
 }
 
 func toolEnv(goarch string) []string {
@@ -135,6 +142,9 @@ func Load(repoDir, goarch string, overlay map[string][]byte) (*Engine, error) {
 			e.ModFuncs = append(e.ModFuncs, fn)
 		}
 	}
+	e.anchorLog = map[string]bool{}
+	e.override = map[string]*ssa.Function{}
+	e.resolveRoles()
 	sort.Slice(e.ModFuncs, func(i, j int) bool {
 		a, b := e.ModFuncs[i], e.ModFuncs[j]
 		if a.Pos() != b.Pos() {
@@ -260,6 +270,16 @@ func (e *Engine) Pos(p token.Pos) string {
 // Func resolves "Alias.name" or "Alias.(*T).name" / "Alias.(T).name" to an SSA
 // function; nil if it does not exist.
 func (e *Engine) Func(alias, name string) *ssa.Function {
+	if e.anchorLog != nil {
+		e.anchorLog[alias+"|"+name] = true
+	}
+	if f, ok := e.override[alias+"|"+name]; ok {
+		return f
+	}
+	return e.funcByName(alias, name)
+}
+
+func (e *Engine) funcByName(alias, name string) *ssa.Function {
 	path, ok := pkgAlias[alias]
 	if !ok {
 		path = alias
@@ -326,6 +346,19 @@ func shortFunc(fn *ssa.Function) string {
 	if fn == nil {
 		return "<nil>"
 	}
+	if c, ok := canonNames[fn]; ok {
+		return c
+	}
+	if p := fn.Parent(); p != nil {
+		if c, ok := canonNames[p]; ok {
+			// anonymous function of a role-resolved function
+			return c + strings.TrimPrefix(fn.String(), p.String())
+		}
+	}
+	return rawShortFunc(fn)
+}
+
+func rawShortFunc(fn *ssa.Function) string {
 	s := fn.String()
 	s = strings.ReplaceAll(s, modPath+"/store/primary/multihash", "mhprimary")
 	s = strings.ReplaceAll(s, modPath+"/store/primary/cid", "cidprimary")
@@ -358,4 +391,168 @@ func readOverlay(path string) (map[string][]byte, error) {
 		out[k] = []byte(v)
 	}
 	return out, nil
+}
+
+// ---------------------------------------------------------------------------
+// role-based anchor resolution: when a function the rule tables name is not
+// found under that name (renamed), it is looked up by its recorded fingerprint
+// (package, signature, set of callees) — see roles.json, written by
+// `sthlint -dump-roles` from a tree on which all anchors resolve by name.
+
+type roleFP struct {
+	Alias   string   `json:"alias"`
+	Name    string   `json:"name"`
+	Sig     string   `json:"sig"`
+	Callees []string `json:"callees"`
+}
+
+//go:embed roles.json
+var rolesJSON []byte
+
+func fingerprint(fn *ssa.Function) (string, []string) {
+	sig := types.TypeString(fn.Signature, typeQualifier)
+	if recv := fn.Signature.Recv(); recv != nil {
+		sig = "(" + types.TypeString(recv.Type(), typeQualifier) + ")" + sig
+	}
+	set := map[string]bool{}
+	for _, f := range withAnonsAll(fn) {
+		for _, b := range f.Blocks {
+			for _, in := range b.Instrs {
+				if ci, ok := in.(ssa.CallInstruction); ok {
+					c := ci.Common()
+					if c.IsInvoke() {
+						set["invoke:"+c.Method.Name()] = true
+					} else if sc := c.StaticCallee(); sc != nil {
+						// canonical name when the callee itself was found by role
+						set[shortFunc(sc)] = true
+					} else if b, ok := c.Value.(*ssa.Builtin); ok {
+						set["builtin."+b.Name()] = true
+					}
+				}
+				if fa, ok := in.(*ssa.FieldAddr); ok {
+					set["field:"+fieldName(fa.X.Type(), fa.Field)] = true
+				}
+			}
+		}
+	}
+	var out []string
+	for k := range set {
+		out = append(out, k)
+	}
+	sort.Strings(out)
+	return sig, out
+}
+
+func withAnonsAll(fn *ssa.Function) []*ssa.Function {
+	out := []*ssa.Function{fn}
+	for _, a := range fn.AnonFuncs {
+		out = append(out, withAnonsAll(a)...)
+	}
+	return out
+}
+
+func (e *Engine) resolveRoles() {
+	var roles []roleFP
+	if len(rolesJSON) == 0 || json.Unmarshal(rolesJSON, &roles) != nil {
+		return
+	}
+	taken := map[*ssa.Function]bool{}
+	for _, r := range roles {
+		if f := e.funcByName(r.Alias, r.Name); f != nil {
+			taken[f] = true
+		}
+	}
+	for pass := 0; pass < 4; pass++ {
+		progress := false
+		for _, r := range roles {
+			if e.funcByName(r.Alias, r.Name) != nil {
+				continue
+			}
+			if _, done := e.override[r.Alias+"|"+r.Name]; done {
+				continue
+			}
+			if e.resolveRole(r, taken) {
+				progress = true
+			}
+		}
+		if !progress {
+			break
+		}
+	}
+}
+
+func (e *Engine) resolveRole(r roleFP, taken map[*ssa.Function]bool) bool {
+	{
+		path := pkgAlias[r.Alias]
+		want := map[string]bool{}
+		for _, c := range r.Callees {
+			want[c] = true
+		}
+		var best, second float64
+		var bestFn *ssa.Function
+		for _, fn := range e.ModFuncs {
+			if fn.Parent() != nil || fn.Pkg == nil || fn.Pkg.Pkg.Path() != path || taken[fn] || fn.Synthetic != "" {
+				continue
+			}
+			sig, callees := fingerprint(fn)
+			if sig != r.Sig {
+				continue
+			}
+			inter, union := 0, len(want)
+			for _, c := range callees {
+				if want[c] {
+					inter++
+				} else {
+					union++
+				}
+			}
+			score := 1.0
+			if union > 0 {
+				score = float64(inter) / float64(union)
+			}
+			if score > best {
+				second = best
+				best, bestFn = score, fn
+			} else if score > second {
+				second = score
+			}
+		}
+		if bestFn != nil && best >= 0.5 && best-second >= 0.1 {
+			e.override[r.Alias+"|"+r.Name] = bestFn
+			taken[bestFn] = true
+			canon := r.Name
+			q := typeQualifier(bestFn.Pkg.Pkg)
+			if strings.HasPrefix(canon, "(*") {
+				canon = "(*" + q + "." + canon[2:]
+			} else if strings.HasPrefix(canon, "(") {
+				canon = "(" + q + "." + canon[1:]
+			} else {
+				canon = q + "." + canon
+			}
+			canonNames[bestFn] = canon
+			return true
+		}
+	}
+	return false
+}
+
+// dumpRoles writes the fingerprints of all anchors requested so far.
+func (e *Engine) dumpRoles(path string) error {
+	var roles []roleFP
+	var keys []string
+	for k := range e.anchorLog {
+		keys = append(keys, k)
+	}
+	sort.Strings(keys)
+	for _, k := range keys {
+		parts := strings.SplitN(k, "|", 2)
+		f := e.funcByName(parts[0], parts[1])
+		if f == nil || f.Blocks == nil {
+			continue
+		}
+		sig, callees := fingerprint(f)
+		roles = append(roles, roleFP{parts[0], parts[1], sig, callees})
+	}
+	data, _ := json.MarshalIndent(roles, "", " ")
+	return os.WriteFile(path, data, 0o644)
 }
